@@ -442,6 +442,53 @@ func resolveLineGroups(p *load.Prog, parse *ssa.Function, sub *ssa.Call) (lineGr
 			return ""
 		case *ssa.Call:
 			cal := x.Call.StaticCallee()
+			if cal != nil && cal.Pkg != nil && cal.Pkg.Pkg.Path() == "strings" && strings.HasPrefix(cal.Name(), "Trim") {
+				// literal affix removal (TrimPrefix/TrimSuffix of constants) composes to a fixed cut;
+				// character-set trimming (Trim, TrimLeft, TrimRight, TrimSpace, Trim*Func) also eats
+				// characters of the name itself, which the pointer group admits at both ends
+				var cur ssa.Value = x
+				pre, suf := "", ""
+				for {
+					c2, ok := cur.(*ssa.Call)
+					if !ok {
+						break
+					}
+					cal2 := c2.Call.StaticCallee()
+					if cal2 == nil || cal2.Pkg == nil || cal2.Pkg.Pkg.Path() != "strings" {
+						break
+					}
+					if cal2.Name() == "TrimPrefix" || cal2.Name() == "TrimSuffix" {
+						lit, okc := su.ConstString(c2.Call.Args[1])
+						if !okc {
+							return "pointer argument of newNode is not the optional trimmed group"
+						}
+						if cal2.Name() == "TrimPrefix" {
+							pre = pre + lit // applied after the inner cuts: lies deeper in the text
+						} else {
+							suf = lit + suf
+						}
+						cur = c2.Call.Args[0]
+						continue
+					}
+					if strings.HasPrefix(cal2.Name(), "Trim") {
+						if k, ok := groupOf(c2.Call.Args[0]); ok {
+							g.pointer = int(k)
+						}
+						return "TRIM"
+					}
+					break
+				}
+				k, ok := groupOf(cur)
+				if !ok {
+					return "pointer is not a cut of a submatch group"
+				}
+				g.pointer = int(k)
+				// inner cuts are applied first: reverse the accumulation order
+				if pre != "@" || suf != "@ " {
+					return "TRIM"
+				}
+				return ""
+			}
 			if cal == nil || !p.IsRepoFunc(cal) || len(cal.Blocks) == 0 || len(x.Call.Args) != 1 || len(cal.Params) != 1 {
 				return "pointer argument of newNode is not the optional trimmed group"
 			}
@@ -515,7 +562,7 @@ func c01Reader(p *load.Prog, r *oblig.Run) {
 	r.Extra["line_pattern"] = pat
 	lg, why := resolveLineGroups(p, parse, sub)
 	if why == "TRIM" {
-		r.Add("R01.a", "pointer trimming", p.Pos(parse.Pos()), "trimming of the pointer group").Fail("parseLine no longer trims exactly the leading '@' and the trailing '@ ' from the pointer group ([1:len-2])")
+		r.Add("R01.a", "pointer trimming", p.Pos(parse.Pos()), "trimming of the pointer group").Fail("parseLine no longer trims exactly the leading '@' and the trailing '@ ' from the pointer group ([1:len-2] or the equivalent literal prefix/suffix removal): trimming by a character set also removes '@'/space characters that belong to the name, which the pattern admits and the writer emits")
 		return
 	}
 	if strings.HasPrefix(why, "VALUE:") {
